@@ -122,6 +122,37 @@ fn gen_c15(ctx: &mut Ctx) {
             rd_case(ctx, *k, content, &sched, "hard-error-at-index");
         }
     }
+    // over-long lines (longer than any legal frame) whose tail would be a valid frame on its own, followed by a frame
+    for junk in [521usize, 522, 523, 524, 525, 600, 1046, 1047] {
+        for filler in [b'3', b':', b'G'] {
+            let mut content: Vec<u8> = vec![filler; junk];
+            content.extend(enc(7, 2, &[0xFF], true));
+            content.extend(enc(9, 4, &[0x10], true));
+            content.extend_from_slice(b"xy");
+            for sched in [vec![], vec!["D0".to_string(), "I".to_string(), "D700".to_string()], vec!["D522".to_string(), "D0".to_string()]] {
+                rd_case(ctx, 2, &content, &sched, "over-long-line");
+                rd_case(ctx, 3, &content, &sched, "over-long-line");
+            }
+        }
+    }
+    // "however often it reports an interrupted read": bursts of 300, 65535, 65536 and 70000 interrupts before a byte
+    for burst in [300usize, 65535, 65536, 70000] {
+        let content = [enc(3, 2, &[0xFF], true), enc(5, 4, &[0x10], true)].concat();
+        let mut sched: Vec<String> = vec!["D0".to_string(), "D0".to_string()];
+        sched.extend((0..burst).map(|_| "I".to_string()));
+        sched.push("D3".to_string());
+        sched.extend((0..burst / 2).map(|_| "I".to_string()));
+        rd_case(ctx, 2, &content, &sched, "interrupt-burst");
+    }
+    // noise lines far longer than any frame, followed by frames
+    for junk in [4095usize, 4096, 4097, 5000, 8193, 20000] {
+        let mut content: Vec<u8> = (0..junk).map(|i| b"0123456789ABCDEF:xyz"[i % 20]).collect();
+        content.push(b'\n');
+        content.extend(enc(7, 2, &[0xFF], true));
+        content.extend(enc(9, 4, &[0x10], true));
+        rd_case(ctx, 3, &content, &[], "very-long-noise-line");
+        rd_case(ctx, 2, &content, &["D4095".to_string(), "D0".to_string(), "I".to_string()], "very-long-noise-line");
+    }
     // random longer streams and schedules
     for _ in 0..(if thorough { 4000 } else { 400 }) {
         let nf = 1 + rng.below(3) as usize;
@@ -246,6 +277,12 @@ fn reply_tapes(rng: &mut Rng, a: u16) -> Vec<(Vec<u8>, &'static str)> {
         let mut long = enc(a, 0, &rng.bytes(len), true);
         long.extend(enc_msg(&format!("RS.{}.PLD", a)));
         v.push((long, "max-length-reply-and-next"));
+    }
+    for junk in [523usize, 524, 600, 1046] {
+        let mut long: Vec<u8> = vec![b'5'; junk];
+        long.extend(enc_msg(&format!("RS.{}.PLD", a)));
+        long.extend(enc_msg(&format!("RS.{}.PSH", a)));
+        v.push((long, "over-long-line-hiding-a-frame"));
     }
     let mut lf_only = enc(a, 9, &rng.bytes(255), false);
     lf_only.push(b'\n');
@@ -521,6 +558,27 @@ fn gen_c17(ctx: &mut Ctx) {
         ([b":00\r\n".to_vec(), enc_msg("RO.3.RCF")].concat(), "invalid-then-valid"),
         ([b"#comment\r\n".to_vec(), enc_msg("HE.3")].concat(), "invalid-then-valid"),
         ([enc(3, 2, &(0..255).collect::<Vec<u8>>(), true), enc_msg("HE.3")].concat(), "max-length-then-valid"),
+        // one over-long undecodable line whose tail, taken alone, would be a valid frame (a reader that gives up after
+        // the longest legal line would serve that tail to the next call)
+        ([vec![b'7'; 523], enc_msg("RO.3.RCF")].concat(), "invalid-then-valid"),
+        ([vec![b':'; 524], enc_msg("HE.3")].concat(), "invalid-then-valid"),
+        ([vec![b'A'; 1046], enc_msg("RO.3.RCF")].concat(), "invalid-then-valid"),
+        ([vec![b'0'; 521], enc_msg("QS.3")].concat(), "invalid-then-valid"),
+        // more than 255 data bytes with the length byte equal to the count modulo 256 and a consistent checksum
+        ({
+            let mut r = Rng::new(17, 171);
+            let mut v = crate::gen::oversize_strings(&mut r)[0].clone();
+            v.extend_from_slice(b"\r\n");
+            v.extend(enc_msg("HE.3"));
+            v
+        }, "invalid-then-valid"),
+        ({
+            let mut r = Rng::new(18, 171);
+            let mut v = crate::gen::oversize_strings(&mut r)[4].clone();
+            v.extend_from_slice(b"\r\n");
+            v.extend(enc_msg("RO.3.RCF"));
+            v
+        }, "invalid-then-valid"),
         ({
             let mut v = enc_msg("HE.3");
             let n = v.len();
